@@ -208,6 +208,42 @@ pub fn case(rng: &mut Rng, max_objects: usize) -> String {
             Err(e) => s.str("panic", &panic_msg(e)).done(),
         });
     }
+    // the mode-specific calculators' own next / last (the mode-agnostic wrapper only calls nth)
+    let specific = catch_unwind(AssertUnwindSafe(|| {
+        macro_rules! run {
+            ($m:ty) => {{
+                let mut g = d.clone().gradual_performance_for_mode::<$m>(&map).ok()?;
+                let a = g.next(states[0].clone().into()).map(|x| x.json());
+                let b = g.next(states[1].clone().into()).map(|x| x.json());
+                let c = g.last(states[2].clone().into()).map(|x| x.json());
+                Some(vec![a, b, c])
+            }};
+        }
+        let got: Vec<Option<String>> = match target {
+            0 => run!(rosu_pp::osu::Osu)?,
+            1 => run!(rosu_pp::taiko::Taiko)?,
+            2 => run!(rosu_pp::catch::Catch)?,
+            _ => run!(rosu_pp::mania::Mania)?,
+        };
+        let mut g = GradualPerformance::new_with_mode(d.clone(), &map, mode_of(target)).ok()?;
+        let inner = |x: rosu_pp::any::PerformanceAttributes| match x {
+            rosu_pp::any::PerformanceAttributes::Osu(a) => a.json(),
+            rosu_pp::any::PerformanceAttributes::Taiko(a) => a.json(),
+            rosu_pp::any::PerformanceAttributes::Catch(a) => a.json(),
+            rosu_pp::any::PerformanceAttributes::Mania(a) => a.json(),
+        };
+        let want = vec![
+            g.next(states[0].clone()).map(inner),
+            g.next(states[1].clone()).map(inner),
+            g.last(states[2].clone()).map(inner),
+        ];
+        Some(got == want)
+    }));
+    let head = match specific {
+        Ok(Some(eq)) => head.raw("mode_specific_eq", eq),
+        Ok(None) => head,
+        Err(e) => head.str("panic_mode_specific", &panic_msg(e)),
+    };
     head.raw("states", arr(states.iter().map(state_json)))
         .raw("seqs", arr(seqs))
         .done()
